@@ -3045,10 +3045,12 @@ func (dsc *dataStoreCommand) setRemove(keyName string, members []string) (output
 }
 
 func (dsc *dataStoreCommand) save(l lane.Lane, path string) (err error) {
-	if dsc.ds.data.dirty {
-		dsc.lock()
-		defer dsc.unlock()
+	// the dirty flag is written by commands under the lock: it is read
+	// under it as well (the saver runs on its own goroutine)
+	dsc.lock()
+	defer dsc.unlock()
 
+	if dsc.ds.data.dirty {
 		if err = dsc.ds.save(path); err != nil {
 			l.Errorf("Unable to save to %s. Error: %s", path, err)
 			return
